@@ -404,4 +404,158 @@ theorem kernel_energy_balance (L U : ℕ) (h : L + 2 ≤ U) (hU : U ≤ m.nq)
     (fun hlt => (rate_zero_of_xs_zero m y U hlt).2.2 (hdr hlt))
     hcx
 
+/-! ## overlap factors and ionisation heating: documented radial integrals, range, sign -/
+
+theorem sumA_ofFn (n : ℕ) (t : ℕ → ℝ) :
+    sumA (Array.ofFn (n := n) fun i => t i.val) = ∑ i ∈ Finset.range n, t i := by
+  unfold sumA
+  rw [← Array.foldl_toList, Array.toList_ofFn, lit_real, Nat.cast_zero]
+  induction n with
+  | zero => simp
+  | succ k ih =>
+    rw [List.ofFn_succ', List.concat_eq_append, List.foldl_append, Finset.sum_range_succ]
+    simp only [List.foldl_cons, List.foldl_nil, Fin.val_last]
+    have : (List.ofFn fun i : Fin k => t (Fin.castSucc i).val) = List.ofFn fun i : Fin k => t i.val := by
+      congr
+    rw [this, ih]
+
+/-- the trapezoid rule on the first `m` nodes as a finite sum -/
+theorem trapzA_eq_sum (yv x : Array ℝ) (mm : ℕ) :
+    trapzA yv x mm = ∑ i ∈ Finset.range (mm - 1), (at' x (i + 1) - at' x i) * (at' yv (i + 1) + at' yv i) / 2 := by
+  unfold trapzA
+  rw [sumA_ofFn (mm - 1) fun i => (at' x (i + 1) - at' x i) * (at' yv (i + 1) + at' yv i) / (2.0 : ℝ)]
+  apply Finset.sum_congr rfl
+  intro i _; norm_num
+
+/-- a non-negative integrand on a non-decreasing grid: the integral over the first `m₁` nodes is non-negative and not
+larger than the integral over the first `m₂ ≥ m₁` nodes -/
+theorem trapzA_mono (yv x : Array ℝ) (m1 m2 : ℕ) (h12 : m1 ≤ m2) (hy : ∀ i, 0 ≤ at' yv i)
+    (hx : ∀ i, i + 1 < m2 → at' x i ≤ at' x (i + 1)) :
+    0 ≤ trapzA yv x m1 ∧ trapzA yv x m1 ≤ trapzA yv x m2 := by
+  rw [trapzA_eq_sum, trapzA_eq_sum]
+  have hterm : ∀ i ∈ Finset.range (m2 - 1), 0 ≤ (at' x (i + 1) - at' x i) * (at' yv (i + 1) + at' yv i) / 2 := by
+    intro i hi
+    have hi' : i + 1 < m2 := by have := Finset.mem_range.mp hi; omega
+    have := hx i hi'
+    have := hy i; have := hy (i + 1)
+    apply div_nonneg _ (by norm_num)
+    apply mul_nonneg <;> linarith
+  have hsub : Finset.range (m1 - 1) ⊆ Finset.range (m2 - 1) := by
+    intro i hi; simp only [Finset.mem_range] at hi ⊢; omega
+  exact ⟨Finset.sum_nonneg fun i hi => hterm i (hsub hi), Finset.sum_le_sum_of_subset_of_nonneg hsub fun i hi _ => hterm i hi⟩
+
+theorem at'_map {β : Type} (v : Array β) (f : β → ℝ) (k : ℕ) (hk : k < v.size) : at' (v.map f) k = f v[k] := by
+  simp [at', Array.getD, hk]
+
+/-- **the beam overlap factor is the documented ratio of radial integrals**: `∫₀^{r_e} r s dr / ∫₀^{r_dt} r s dr` (trapezoid rule on the
+device grid) of the Boltzmann shape `s = exp(−q (φ − φ_min)/kT)` of the state -/
+theorem fei_formula (k : ℕ) (hk : k < m.nq) :
+    at' (stage m y).fei k =
+      trapzA (Array.ofFn (n := m.r.size) fun g =>
+          at' (Array.ofFn (n := m.r.size) fun g' => Real.exp (-(at' m.q k) * (at' (stage m y).phi g'.val - minA (stage m y).phi) / at' (stage m y).kT k)) g.val
+            * at' m.r g.val) m.r (m.ix + 1)
+      / trapzA (Array.ofFn (n := m.r.size) fun g =>
+          at' (Array.ofFn (n := m.r.size) fun g' => Real.exp (-(at' m.q k) * (at' (stage m y).phi g'.val - minA (stage m y).phi) / at' (stage m y).kT k)) g.val
+            * at' m.r g.val) m.r m.r.size := by
+  have e : (stage m y).fei = Array.ofFn (n := m.nq) fun k =>
+      at' (((Array.ofFn (n := m.nq) fun k => Array.ofFn (n := m.r.size) fun g =>
+          Transc.exp (-(at' m.q k.val) * (at' (stage m y).phi g.val - minA (stage m y).phi) / at' (stage m y).kT k.val)).map
+          fun s => Array.ofFn (n := m.r.size) fun g => at' s g.val * at' m.r g.val).map fun s => trapzA s m.r (m.ix + 1)) k.val
+      / at' (((Array.ofFn (n := m.nq) fun k => Array.ofFn (n := m.r.size) fun g =>
+          Transc.exp (-(at' m.q k.val) * (at' (stage m y).phi g.val - minA (stage m y).phi) / at' (stage m y).kT k.val)).map
+          fun s => Array.ofFn (n := m.r.size) fun g => at' s g.val * at' m.r g.val).map fun s => trapzA s m.r m.r.size) k.val := rfl
+  rw [e, at'_ofFn _ k hk]
+  simp only
+  rw [at'_map _ _ k (by simp [hk]), at'_map _ _ k (by simp [hk])]
+  simp
+
+/-- **beam overlap factors lie in `[0, 1]`** on every non-negative, non-decreasing grid whose beam-edge index lies on the grid — for
+every state, potential and temperature (no positivity of the denominator is needed: the integrand is non-negative) -/
+theorem fei_unit_interval (k : ℕ) (hk : k < m.nq) (hr0 : ∀ i, 0 ≤ at' m.r i)
+    (hmono : ∀ i, i + 1 < m.r.size → at' m.r i ≤ at' m.r (i + 1)) (hix : m.ix + 1 ≤ m.r.size) :
+    0 ≤ at' (stage m y).fei k ∧ at' (stage m y).fei k ≤ 1 := by
+  rw [fei_formula m y k hk]
+  set S : Array ℝ := Array.ofFn (n := m.r.size) fun g' =>
+    Real.exp (-(at' m.q k) * (at' (stage m y).phi g'.val - minA (stage m y).phi) / at' (stage m y).kT k) with hS
+  set Y : Array ℝ := Array.ofFn (n := m.r.size) fun g => at' S g.val * at' m.r g.val with hY
+  have hSnn : ∀ i, 0 ≤ at' S i := by
+    intro i
+    by_cases h : i < m.r.size
+    · rw [hS, at'_ofFn _ i h]; exact (Real.exp_pos _).le
+    · rw [hS, at'_ofFn_ge _ i (by omega)]
+  have hy : ∀ i, 0 ≤ at' Y i := by
+    intro i
+    by_cases h : i < m.r.size
+    · rw [hY, at'_ofFn _ i h]; exact mul_nonneg (hSnn i) (hr0 i)
+    · rw [hY, at'_ofFn_ge _ i (by omega)]
+  obtain ⟨h0, h1⟩ := trapzA_mono Y m.r (m.ix + 1) m.r.size hix hy hmono
+  exact ⟨div_nonneg h0 (le_trans h0 h1), div_le_one_of_le₀ h1 (le_trans h0 h1)⟩
+
+theorem foldl_min_le' (xs : List ℝ) (x : ℝ) :
+    (xs.foldl (fun m y => if y < m then y else m) x ≤ x) ∧ (∀ a ∈ xs, xs.foldl (fun m y => if y < m then y else m) x ≤ a) := by
+  induction xs generalizing x with
+  | nil => simp
+  | cons y ys ih =>
+    simp only [List.foldl_cons, List.mem_cons, forall_eq_or_imp]
+    obtain ⟨h1, h2⟩ := ih (if y < x then y else x)
+    by_cases hyx : y < x
+    · simp only [hyx, if_true] at h1 h2 ⊢
+      exact ⟨by linarith, h1, h2⟩
+    · simp only [hyx, if_false] at h1 h2 ⊢
+      exact ⟨h1, by linarith [not_lt.mp hyx], h2⟩
+
+/-- `phi.min()` is a lower bound of every node value -/
+theorem minA_le (v : Array ℝ) (i : ℕ) (hi : i < v.size) : minA v ≤ at' v i := by
+  unfold minA
+  rw [← Array.foldl_toList]
+  have hmem : at' v i ∈ v.toList := by
+    have : at' v i = v[i] := by simp [at', Array.getD, hi]
+    rw [this]; exact Array.getElem_mem_toList hi
+  exact (foldl_min_le' v.toList _).2 _ hmem
+
+/-- **ionisation heating** is `2/3` of the mean potential energy (above the potential minimum) of the state's ions inside the beam,
+`⅔ ∫₀^{r_e} r s (φ − φ_min) dr / ∫₀^{r_e} r s dr`, and it is never negative -/
+theorem iheat_nonneg (k : ℕ) (hk : k < m.nq) (hr0 : ∀ i, 0 ≤ at' m.r i) (hphi : (stage m y).phi.size = m.r.size)
+    (hmono : ∀ i, i + 1 < m.ix + 1 → at' m.r i ≤ at' m.r (i + 1)) :
+    0 ≤ at' (stage m y).iheat k := by
+  have e : (stage m y).iheat = Array.ofFn (n := m.nq) fun k =>
+      if m.opts.IHEAT then lit 2 / lit 3 *
+        at' (((Array.ofFn (n := m.nq) fun k => Array.ofFn (n := m.r.size) fun g =>
+          Transc.exp (-(at' m.q k.val) * (at' (stage m y).phi g.val - minA (stage m y).phi) / at' (stage m y).kT k.val)).map
+          fun s => Array.ofFn (n := m.r.size) fun g => at' s g.val * at' m.r g.val).map fun s =>
+            trapzA (Array.ofFn (n := m.r.size) fun g => at' s g.val * (at' (stage m y).phi g.val - minA (stage m y).phi)) m.r (m.ix + 1)) k.val
+        / at' (((Array.ofFn (n := m.nq) fun k => Array.ofFn (n := m.r.size) fun g =>
+          Transc.exp (-(at' m.q k.val) * (at' (stage m y).phi g.val - minA (stage m y).phi) / at' (stage m y).kT k.val)).map
+          fun s => Array.ofFn (n := m.r.size) fun g => at' s g.val * at' m.r g.val).map fun s => trapzA s m.r (m.ix + 1)) k.val
+      else lit 0 := rfl
+  rw [e, at'_ofFn _ k hk]
+  simp only
+  split_ifs
+  · rw [at'_map _ _ k (by simp [hk]), at'_map _ _ k (by simp [hk])]
+    simp only [Array.getElem_map, Array.getElem_ofFn, lit_real, Transc.exp_real]
+    set S : Array ℝ := Array.ofFn (n := m.r.size) fun g' =>
+      Real.exp (-(at' m.q k) * (at' (stage m y).phi g'.val - minA (stage m y).phi) / at' (stage m y).kT k) with hS
+    set Y : Array ℝ := Array.ofFn (n := m.r.size) fun g => at' S g.val * at' m.r g.val with hY
+    have hSnn : ∀ i, 0 ≤ at' S i := by
+      intro i
+      by_cases h : i < m.r.size
+      · rw [hS, at'_ofFn _ i h]; exact (Real.exp_pos _).le
+      · rw [hS, at'_ofFn_ge _ i (by omega)]
+    have hy : ∀ i, 0 ≤ at' Y i := by
+      intro i
+      by_cases h : i < m.r.size
+      · rw [hY, at'_ofFn _ i h]; exact mul_nonneg (hSnn i) (hr0 i)
+      · rw [hY, at'_ofFn_ge _ i (by omega)]
+    have hyp : ∀ i, 0 ≤ at' (Array.ofFn (n := m.r.size) fun g => at' Y g.val * (at' (stage m y).phi g.val - minA (stage m y).phi)) i := by
+      intro i
+      by_cases h : i < m.r.size
+      · rw [at'_ofFn _ i h]
+        exact mul_nonneg (hy i) (by have := minA_le (stage m y).phi i (by omega); linarith)
+      · rw [at'_ofFn_ge _ i (by omega)]
+    have h1 := (trapzA_mono _ m.r (m.ix + 1) (m.ix + 1) le_rfl hyp hmono).1
+    have h2 := (trapzA_mono Y m.r (m.ix + 1) (m.ix + 1) le_rfl hy hmono).1
+    have : (0:ℝ) ≤ 2 / 3 := by norm_num
+    exact div_nonneg (mul_nonneg (by norm_num) h1) h2
+  · simp
+
 end C05
